@@ -402,7 +402,7 @@ ALLOWED_ATTACH = {'__post_init__', '_lt', '__getstate__', '__setstate__', '_set_
                   'set_context', 'filter_context'}
 
 
-@rule('C15.DATACLASS-ARGS', ['C15'])
+@rule('C15.DATACLASS-ARGS', ['C15', 'C03', 'C01', 'C17'])
 def dataclass_args(ctx: Ctx):
     """The decorator applies dataclass(frozen=True, eq=True, ...) after attaching __post_init__, and
     attaches nothing that overrides generated equality / hashing."""
@@ -541,7 +541,7 @@ def _getstate_keys(gs: FuncInfo) -> set[str]:
     return keys
 
 
-@rule('C15.STATE-CLEAN', ['C15', 'C16', 'C07'])
+@rule('C15.STATE-CLEAN', ['C15', 'C16', 'C07', 'C04', 'C06'])
 def state_clean(ctx: Ctx):
     """__getstate__ ships an explicit dict: the fields, _lt, _is_task, cache_key and `_results_map: None`;
     nothing derived from context, result_meta, _result or the instance __dict__."""
@@ -579,10 +579,12 @@ def state_clean(ctx: Ctx):
             rm = dict((k.value, val) for k, val in zip(v.keys, v.values) if isinstance(k, ast.Constant))
             ok = ok and keys == {'_lt', '_is_task', 'cache_key', '_results_map'} \
                 and isinstance(rm.get('_results_map'), ast.Constant) and rm['_results_map'].value is None \
-                and same_expr(rm.get('cache_key'), ast.parse(f'{sn}.cache_key', mode='eval').body)
+                and same_expr(rm.get('cache_key'), ast.parse(f'{sn}.cache_key', mode='eval').body) \
+                and same_expr(rm.get('_lt'), ast.parse(f'{sn}._lt', mode='eval').body) \
+                and same_expr(rm.get('_is_task'), ast.parse(f'{sn}._is_task', mode='eval').body)
     yield ctx.ob('C15.STATE-CLEAN', ok, gs, rets[0] if rets else gs.node, 'state = fields + {_lt, _is_task, cache_key, _results_map: None}',
-                 '' if ok else f'__getstate__ does not return the explicit state dict (keys found: {sorted(keys)}): the cache key must travel '
-                 'with the task and no results/context may', construct='state-dict')
+                 '' if ok else f'__getstate__ does not return the explicit state dict (keys found: {sorted(keys)}) with the task\'s own `_lt`, `_is_task` and '
+                 '`cache_key` as they are: the key and the type configuration (cache, max_parallel, hooks) must travel with the task unchanged, and no results/context may', construct='state-dict')
     # __setstate__ must not recompute the key
     rec = [c for c in calls_in(ss.node) if isinstance(c.func, ast.Attribute) and c.func.attr == 'cache_key']
     yield ctx.ob('C15.STATE-CLEAN', not rec, ss, rec[0] if rec else ss.node, '__setstate__ keeps the shipped cache_key',
@@ -891,7 +893,7 @@ def charset(ctx: Ctx):
                  'the validator forbids a character that occurs in identifiers or hex digests', construct='abstract-classes', path='labtech/storage.py')
 
 
-@rule('C07.KEY-ONCE', ['C07', 'C06', 'C09'])
+@rule('C07.KEY-ONCE', ['C07', 'C06', 'C09', 'C03'])
 def key_once(ctx: Ctx):
     """The cache key is computed once, after the fields were normalised, and travels with the pickled task."""
     pi = ctx.P.attachments.get('__post_init__')
